@@ -81,6 +81,12 @@ def run_shard(spec, ctx):
             eval_case(a5, tree, L, ctx, {'cells': L})
         ctx.sample({'cells': L, 'compact': a5.compact(list(L))})
     elif spec['part'] == 'random':
+        for _ in range(60 * spec['n']):
+            X = cc.small_mixed(rnd, a5, gen)
+            L = cc.presentations(rnd, X, tree, True)
+            ctx.case(tuple(L), nontrivial=True)
+            ctx.count('small_mixed_cases')
+            eval_case(a5, tree, L, ctx, {'cells': L})
         for _ in range(40 * spec['n']):
             X, root = cc.spine_case(rnd, a5, gen)
             L = cc.presentations(rnd, X, tree, True)
